@@ -353,13 +353,21 @@ def run_filenames(acc, P, job):
     for combo in core.shard_iter(combos, job['shard'], job['of']):
         names = [FILENAMES[i] for i in combo]
         exp = sorted(names)[-1]
-        for absolute in (False, True):
+        for absolute, linked in ((False, False), (True, False),
+                                 (False, True)):
             w = world.FileWorld()
             try:
                 w.mkdir('d1')
                 for n in sorted(names, reverse=absolute):
                     body = {'svc:get': 'role:F%d' % FILENAMES.index(n)}
-                    w.write('d1/' + n, json.dumps(body))
+                    if linked and n == exp:
+                        # the file that must win is a symbolic link to a
+                        # regular file kept elsewhere (a mounted ConfigMap)
+                        w.write('store/' + n, json.dumps(body))
+                        os.symlink(w.path('store/' + n), w.path('d1/' + n))
+                        w._apply()
+                    else:
+                        w.write('d1/' + n, json.dumps(body))
                 dirs = [w.path('d1')] if absolute else ['d1']
                 enf = P.Enforcer(world.new_conf(w.root, policy_dirs=dirs))
                 enf.load_rules()
@@ -378,8 +386,9 @@ def run_filenames(acc, P, job):
                         'directory holding %r: the definition in effect is '
                         'that of %r, lexicographic order says %r' %
                         (names, hits, exp),
-                        {'names': names, 'absolute_dirs': absolute}, exp,
-                        hits, 'filenames')
+                        {'names': names, 'absolute_dirs': absolute,
+                         'winner_is_symlink': linked}, exp, hits,
+                        'filenames')
                 acc.outcome('filenames-last=%s' % ('first-written' if
                                                    exp == names[0] else
                                                    'later-written'))
